@@ -536,7 +536,7 @@ func cmdCheck(args []string) int {
 			"machinery_failures":   machinery,
 			"explanation":          "bounded symbolic execution of the real Go code (go/ssa of /repo's working tree, regenerated on this run) into SMT-LIB2; bounds per obligation are listed under obligations[].unwind_bound/params and in MANIFEST level_note",
 		},
-		"assumptions": sortedKeys(stubs),
+		"assumptions": append([]string{"the go/ssa -> SMT-LIB2 encoder and its models of math/big are faithful (every counterexample is replayed natively; unsat answers rest on the encoder)", "z3 4.8.12 / z3 5.1.0 / cvc5 1.0.3 answer correctly; any (error line makes an answer inconclusive"}, sortedKeys(stubs)...),
 	}
 	if len(samples) == 0 {
 		ev["coverage"].(map[string]interface{})["samples"] = []interface{}{"no sample recorded"}
@@ -557,7 +557,7 @@ func cmdCheck(args []string) int {
 }
 
 func sortedKeys(m map[string]bool) []string {
-	var out []string
+	out := []string{}
 	for k := range m {
 		out = append(out, k)
 	}
